@@ -30,6 +30,19 @@ TOL_EXP = 5e-4          # exponential cone by ECOS
 REL_BOUND = 1e-3        # the property's bound for |x/z| <= 4
 MONO_SLACK = 1e-6       # solver slack for "no larger at higher degrees" when both solvers agree
 C18_PHASES = ('to_socp', 'soc_solve', 'do_math-after')
+# Feasibility tolerance of the SOC interfaces (ECOS feastol, Gurobi FeasibilityTol / BarQCPConvTol).
+# The block ends in a chain of L squarings v_{k+1} * alpha >= v_k^2: a perturbation of relative size
+# eps at the head of the chain arrives multiplied by 2^L at t, so the solver's own tolerance on the
+# optimum of a degree-L program is 2^L * eps (measured: Gurobi 1.3e-4 at L = 7, ECOS 1e-8..1e-6).
+FEAS = {'eco': 1e-8, 'grb': 1e-6}
+# A result whose solver status says "reduced accuracy" (ECOS exit flag 10, accepted by
+# eco_solver.py:117) is judged only when a second solver confirms it.  Set True to treat it as a
+# full verdict (see the report of C18: ECOS, degree 8).
+REDUCED_STATUS_IS_VERDICT = False
+
+
+def soc_tol(sname, degree):
+    return max(TOL_SOC, (2 ** degree) * FEAS.get(sname, 1e-6))
 
 
 # ------------------------------------------------------------------------------------------------
@@ -238,6 +251,8 @@ def _licence_limited(e):
 
 
 def _full_status(name, status):
+    if REDUCED_STATUS_IS_VERDICT:
+        return True
     if name == 'eco':
         return status == 'Optimal solution found'
     if name == 'grb':
@@ -405,7 +420,7 @@ def _replay_model(job, phase):
                 findings.append(dict(sig='C18:model-unusable-after-soc_solve:' + kname, prop='C18',
                                      what='do_math() is unchanged but the model misbehaves after soc_solve(): ' + what, **base))
         # accuracy inside a larger program (fresh model, first soc_solve)
-        res['acc'] = _judge_one(res['v_soc'], exact, exact, full)
+        res['acc'] = _judge_one(res['v_soc'], exact, exact, full, False, soc_tol(sname, L))
         if res['acc'] == 'violation':
             findings.append(dict(sig='C18:accuracy:larger-program:deg%d' % L, prop='C18',
                                  what='soc_solve optimum of a larger program deviates by more than 1e-3',
@@ -546,7 +561,7 @@ def build_acc_model(fe, atom, r, z, pos):
     return m, ex + extra, ex
 
 
-def _judge_one(v, total, atom_part, full, confirmed_by_other=False):
+def _judge_one(v, total, atom_part, full, confirmed_by_other=False, tol=TOL_SOC):
     """'ok' | 'inconclusive' | 'violation' for one soc_solve optimum (README rule 3)."""
     if v is None or v != v:
         return 'nosolution'
@@ -554,11 +569,11 @@ def _judge_one(v, total, atom_part, full, confirmed_by_other=False):
     bound = REL_BOUND * abs(atom_part)
     if err <= bound:
         return 'ok'
-    if full and err > bound + 10 * TOL_SOC * (1 + abs(total)):
+    if full and err > bound + 10 * tol * (1 + abs(total)):
         return 'violation'
     if full and confirmed_by_other:
         return 'violation'
-    if full and err <= bound + TOL_SOC * (1 + abs(total)):
+    if full and err <= bound + tol * (1 + abs(total)):
         return 'ok'                      # within the solver's own tolerance of the bound
     return 'inconclusive'
 
@@ -617,7 +632,7 @@ def _replay_accuracy(job, phase):
         confirmed = len(fullover) >= 2
         for sname in over:
             v, full, status = vals[(sname, d)]
-            j = _judge_one(v, total, part, full, confirmed)
+            j = _judge_one(v, total, part, full, confirmed, soc_tol(sname, d))
             verdicts[(sname, d)] = j
             if j == 'violation' and oracle_ok:
                 findings.append(dict(sig='C18:accuracy:%s:deg%d' % (atom, d), prop='C18',
@@ -633,9 +648,9 @@ def _replay_accuracy(job, phase):
             a, b = vals.get((sname, d0)), vals.get((sname, d1))
             if a and b and a[0] is not None and b[0] is not None and a[1] and b[1]:
                 inc[sname] = abs(b[0] - total) - abs(a[0] - total)
-        hard = [s for s, x in inc.items() if x > 10 * TOL_SOC * (1 + abs(total))]
+        hard = [s for s, x in inc.items() if x > 10 * soc_tol(s, d1) * (1 + abs(total))]
         both = [s for s, x in inc.items() if x > MONO_SLACK * (1 + abs(total))]
-        soft = [s for s, x in inc.items() if x > TOL_SOC * (1 + abs(total))]
+        soft = [s for s, x in inc.items() if x > soc_tol(s, d1) * (1 + abs(total))]
         if oracle_ok and (hard or (len(both) >= 2 and len(both) == len(inc))):
             findings.append(dict(sig='C18:accuracy-not-monotone:%s' % atom, prop='C18',
                                  what='the error at degree %d is larger than at degree %d' % (d1, d0),
